@@ -63,7 +63,7 @@ impl Prop for C10 {
     }
     fn runs(&self, tier: Tier) -> u64 {
         match tier {
-            Tier::Quick => 320,
+            Tier::Quick => 640,
             Tier::Thorough => 6000,
         }
     }
